@@ -13,8 +13,6 @@ import (
 	"fmt"
 	"io"
 	"math/big"
-	"os"
-	"runtime"
 	"runtime/debug"
 	"runtime/pprof"
 	"sort"
@@ -29,11 +27,12 @@ import (
 	"github.com/dominant-strategies/go-quai/core/state"
 	"github.com/dominant-strategies/go-quai/core/types"
 	"github.com/dominant-strategies/go-quai/crypto"
-	"github.com/dominant-strategies/go-quai/ethdb"
 	"github.com/dominant-strategies/go-quai/event"
 	"github.com/dominant-strategies/go-quai/log"
 	"github.com/dominant-strategies/go-quai/params"
 	"github.com/sirupsen/logrus"
+
+	"verifharness/stats"
 )
 
 // ---------------------------------------------------------------------------------------------
@@ -63,9 +62,17 @@ var (
 
 type txRef struct {
 	Acct, Nonce, Price, Gas int
+	Qi                      int // > 0: not a Quai transaction but Qi universe entry Qi-1
 }
 
+func qiRef(i int) txRef { return txRef{Qi: i + 1} }
+
+func ref(a, n, p, g int) txRef { return txRef{Acct: a, Nonce: n, Price: p, Gas: g} }
+
 func (r txRef) String() string {
+	if r.Qi > 0 {
+		return fmt.Sprintf("qi%d", r.Qi-1)
+	}
 	return fmt.Sprintf("%s%d/p%d/g%d", acctNames[r.Acct], r.Nonce, priceLevels[r.Price], gasLevels[r.Gas]/1000)
 }
 
@@ -116,7 +123,7 @@ func getUniverse() *universe {
 			for nn := 0; nn < nNonces; nn++ {
 				for p := range priceLevels {
 					for g := range gasLevels {
-						r := txRef{a, nn, p, g}
+						r := ref(a, nn, p, g)
 						u.canon[r] = u.sign(a, uint64(nn), priceLevels[p], gasLevels[g], big.NewInt(txValue))
 					}
 				}
@@ -300,14 +307,14 @@ func (s *stubChain) SubscribeChainHeadEvent(ch chan<- core.ChainHeadEvent) event
 	s.headCh = ch
 	return s.feed.Subscribe(ch)
 }
-func (s *stubChain) IsGenesisHash(common.Hash) bool                              { return false }
-func (s *stubChain) CheckIfEtxIsEligible(common.Hash, common.Location) bool      { return true }
-func (s *stubChain) Engine(*types.WorkObjectHeader) consensus.Engine             { return nil }
-func (s *stubChain) NodeCtx() int                                                { return common.ZONE_CTX }
-func (s *stubChain) GetMaxTxInWorkShare() uint64                                 { return 100 }
-func (s *stubChain) CheckInCalcOrderCache(common.Hash) (*big.Int, int, bool)     { return nil, 0, false }
-func (s *stubChain) AddToCalcOrderCache(common.Hash, int, *big.Int)              {}
-func (s *stubChain) CalcBaseFee(*types.WorkObject) *big.Int                      { return big.NewInt(1) }
+func (s *stubChain) IsGenesisHash(common.Hash) bool                          { return false }
+func (s *stubChain) CheckIfEtxIsEligible(common.Hash, common.Location) bool  { return true }
+func (s *stubChain) Engine(*types.WorkObjectHeader) consensus.Engine         { return nil }
+func (s *stubChain) NodeCtx() int                                            { return common.ZONE_CTX }
+func (s *stubChain) GetMaxTxInWorkShare() uint64                             { return 100 }
+func (s *stubChain) CheckInCalcOrderCache(common.Hash) (*big.Int, int, bool) { return nil, 0, false }
+func (s *stubChain) AddToCalcOrderCache(common.Hash, int, *big.Int)          {}
+func (s *stubChain) CalcBaseFee(*types.WorkObject) *big.Int                  { return big.NewInt(1) }
 func (s *stubChain) CalcOrder(*types.WorkObject) (*big.Int, int, error) {
 	return big.NewInt(0), common.ZONE_CTX, nil
 }
@@ -406,7 +413,10 @@ type env struct {
 	feedMode bool // head events through the chain-head feed (pool.loop) instead of VerifSyncReset(old,new)
 	deadline time.Duration
 	hung     bool
-	serial   map[string]*sync.Mutex // known-race exclusions: ops serialised by construction
+	// excludeGap: FPReorgGap is a listed known finding; head changes that can run into it are
+	// left out by construction (and counted)
+	excludeGap bool
+	serial     map[string]*sync.Mutex // known-race exclusions: ops serialised by construction
 }
 
 var poolCfg = func() core.TxPoolConfig {
@@ -419,10 +429,6 @@ var poolCfg = func() core.TxPoolConfig {
 	cfg.QiPoolSize = 4
 	return cfg
 }()
-
-type memDB struct{ ethdb.Database }
-
-func (memDB) Location() common.Location { return loc }
 
 func newEnv(feedMode bool) *env {
 	u := getUniverse()
@@ -441,7 +447,8 @@ func newEnv(feedMode bool) *env {
 	}
 	ch.head = ch.newBlock(nil, nil, st, false)
 	ch.qi = newQiWorld(db, ch.head)
-	e := &env{u: u, chain: ch, hook: hook, feedMode: feedMode, deadline: 30 * time.Second, serial: map[string]*sync.Mutex{}}
+	e := &env{u: u, chain: ch, hook: hook, feedMode: feedMode, deadline: 30 * time.Second}
+	e.excludeGap = stats.IsKnown(FPReorgGap)
 	e.pool = core.NewTxPool(poolCfg, chainCfg, ch, l, db)
 	return e
 }
@@ -550,6 +557,7 @@ type headSpec struct {
 	Mine   [nAccts]mineSel
 	Low    bool // last block carries a gas limit below the big-gas transactions
 	Fund   int  // account credited with 1e12 in the last block, -1 none
+	Qi     int  // bitmask of Qi universe transactions included in the last block
 }
 
 func (h *headSpec) String() string {
@@ -569,11 +577,14 @@ func (h *headSpec) String() string {
 	if h.Fund >= 0 {
 		s += "fund" + acctNames[h.Fund]
 	}
+	if h.Qi != 0 {
+		s += fmt.Sprintf("qi%b", h.Qi)
+	}
 	return s
 }
 
 type op struct {
-	K      string // addRemote addRemoteSync addLocal addBatch setPrice head qiAdd qiRemove qiRemoveAsync read
+	K      string // addRemote addRemoteSync addLocal addBatch addBatchSync setPrice head qiRemove qiRemoveAsync read
 	Txs    []txRef
 	Preset bool
 	Price  int64
@@ -588,7 +599,7 @@ func (o op) String() string {
 		return fmt.Sprintf("setPrice(%d)", o.Price)
 	case "head":
 		return "head(" + o.Head.String() + ")"
-	case "qiAdd", "qiRemove", "qiRemoveAsync", "qiAddLocal":
+	case "qiRemove", "qiRemoveAsync":
 		return fmt.Sprintf("%s(%d)", o.K, o.Qi)
 	case "read":
 		return fmt.Sprintf("read(%d)", o.Read)
@@ -618,34 +629,28 @@ type opResult struct {
 func (e *env) apply(o op) opResult {
 	var r opResult
 	switch o.K {
-	case "addRemote", "addRemoteSync", "addLocal", "addBatch":
+	case "addRemote", "addRemoteSync", "addLocal", "addBatch", "addBatchSync":
 		for _, ref := range o.Txs {
-			r.txs = append(r.txs, e.u.fresh(ref, o.Preset))
+			if ref.Qi > 0 {
+				r.txs = append(r.txs, e.chain.qi.fresh(ref.Qi-1))
+			} else {
+				r.txs = append(r.txs, e.u.fresh(ref, o.Preset))
+			}
 		}
 		r.cr = e.call(func() {
 			switch o.K {
 			case "addLocal":
-				r.errs = []error{e.serialised("AddLocal", func() error { return e.pool.AddLocal(r.txs[0]) })}
-			case "addRemoteSync":
+				r.errs = []error{e.pool.AddLocal(r.txs[0])}
+			case "addRemoteSync", "addBatchSync":
 				r.errs = e.pool.AddRemotesSync(r.txs)
 			default:
-				e.serialised("AddRemotes", func() error { r.errs = e.pool.AddRemotes(r.txs); return nil })
+				r.errs = e.pool.AddRemotes(r.txs)
 			}
 		})
 	case "setPrice":
 		r.cr = e.call(func() { e.pool.SetGasPrice(big.NewInt(o.Price)) })
 	case "head":
 		r.cr = e.call(func() { r.old, r.block = e.moveHead(o.Head) })
-	case "qiAdd":
-		tx := e.chain.qi.fresh(o.Qi)
-		r.txs = []*types.Transaction{tx}
-		r.cr = e.call(func() { e.serialised("AddRemotes", func() error { r.errs = e.pool.AddRemotes(r.txs); return nil }) })
-	case "qiAddLocal":
-		tx := e.chain.qi.fresh(o.Qi)
-		r.txs = []*types.Transaction{tx}
-		r.cr = e.call(func() {
-			r.errs = []error{e.serialised("AddLocal", func() error { return e.pool.AddLocal(tx) })}
-		})
 	case "qiRemove":
 		h := e.chain.qi.txs[o.Qi].Hash()
 		r.cr = e.call(func() { e.pool.RemoveQiTxs([]*common.Hash{&h}) })
@@ -658,16 +663,6 @@ func (e *env) apply(o op) opResult {
 		panic("HARNESS: unknown op " + o.K)
 	}
 	return r
-}
-
-// serialised runs fn under a harness mutex when the named entry point has a listed known data
-// race with itself (exclusion by construction, see knownRaces in c19_test.go).
-func (e *env) serialised(name string, fn func() error) error {
-	if m := e.serial[name]; m != nil {
-		m.Lock()
-		defer m.Unlock()
-	}
-	return fn()
 }
 
 // read exercises the pool's read-side API the way RPC and the worker do.
@@ -688,7 +683,7 @@ func (e *env) read(which int) {
 		var hs []common.Hash
 		for a := 0; a < nAccts; a++ {
 			for n := 0; n < 3; n++ {
-				hs = append(hs, e.u.canon[txRef{a, n, 0, 0}].Hash())
+				hs = append(hs, e.u.canon[ref(a, n, 0, 0)].Hash())
 			}
 		}
 		e.pool.Status(hs)
@@ -697,7 +692,7 @@ func (e *env) read(which int) {
 		e.pool.GasPrice()
 	case 6:
 		for a := 0; a < nAccts; a++ {
-			h := e.u.canon[txRef{a, 0, 0, 0}].Hash()
+			h := e.u.canon[ref(a, 0, 0, 0)].Hash()
 			e.pool.Get(h)
 			e.pool.Has(h)
 		}
@@ -706,12 +701,86 @@ func (e *env) read(which int) {
 	}
 }
 
+// blockPlan is a block that has been decided but not yet registered with the stub chain.
+type blockPlan struct {
+	txs []*types.Transaction
+	st  [nAccts]acctState
+	low bool
+}
+
+func commonAncestor(a, b *block) *block {
+	for a != b {
+		if a.num >= b.num && a.parent != nil {
+			a = a.parent
+		} else if b.parent != nil {
+			b = b.parent
+		} else {
+			return nil
+		}
+	}
+	return a
+}
+
+// FPReorgGap is the fingerprint of the confirmed finding "a reorg that lowers an account's nonce
+// leaves a hole in its pending list when a re-injected transaction is rejected".
+const FPReorgGap = "C19/pending-gap-after-reorg"
+
+// reorgGapHazard reports whether switching the head from cur to a branch that forks at anc, carries
+// the transactions `included` and ends in state st / gas limit gl can run into FPReorgGap: some
+// account's nonce goes down while the pool holds pending transactions of it, and it is not certain
+// that every nonce in between is re-injected and accepted (present on the abandoned branch only,
+// not below the pool's price floor, payable in the new state, within the new gas limit, and the
+// pool has room for everything that comes back).
+func (e *env) reorgGapHazard(cur, anc *block, included []*types.Transaction, st [nAccts]acctState, gl uint64,
+	pend, queued map[common.InternalAddress]types.Transactions, floor *big.Int) bool {
+	inc := map[common.Hash]bool{}
+	for _, tx := range included {
+		inc[tx.Hash()] = true
+	}
+	type key struct {
+		a int
+		n uint64
+	}
+	back := map[key]*types.Transaction{}
+	nback := 0
+	for b := cur; b != nil && b != anc; b = b.parent {
+		for _, tx := range b.txs {
+			if tx.Type() != types.QuaiTxType || inc[tx.Hash()] {
+				continue
+			}
+			nback++
+			back[key{e.u.senderIdx(tx), tx.Nonce()}] = tx
+		}
+	}
+	held := 0
+	for _, l := range pend {
+		held += len(l)
+	}
+	for _, l := range queued {
+		held += len(l)
+	}
+	room := uint64(held+nback) <= poolCfg.GlobalSlots+poolCfg.GlobalQueue
+	for a := 0; a < nAccts; a++ {
+		if st[a].Nonce >= cur.st[a].Nonce || len(pend[e.u.addrs[a]]) == 0 {
+			continue
+		}
+		for n := st[a].Nonce; n < cur.st[a].Nonce; n++ {
+			tx := back[key{a, n}]
+			if tx == nil || !room || tx.GasPrice().Cmp(floor) < 0 || tx.Cost().Cmp(st[a].Bal) > 0 || tx.Gas() > gl {
+				return true
+			}
+		}
+	}
+	return false
+}
+
 // moveHead builds the blocks described by h on the model chain, makes the last one the chain head
 // and tells the pool (feed or direct reset request).
 func (e *env) moveHead(h *headSpec) (old, nb *block) {
 	// what the pool currently holds decides what "mine the pool's transaction" means; fetched
 	// before any chain lock is taken (the pool calls back into the chain under its own lock)
 	pend, queued := e.pool.Content()
+	floor := e.pool.GasPrice()
 	e.chain.headMu.Lock()
 	defer e.chain.headMu.Unlock()
 	cur := e.chain.Head()
@@ -720,6 +789,17 @@ func (e *env) moveHead(h *headSpec) (old, nb *block) {
 		nb = e.chain.prev
 		if nb == nil || nb == cur {
 			return old, nil
+		}
+		if e.excludeGap {
+			anc := commonAncestor(cur, nb)
+			var inc []*types.Transaction
+			for b := nb; b != nil && b != anc; b = b.parent {
+				inc = append(inc, b.txs...)
+			}
+			if anc == nil || e.reorgGapHazard(cur, anc, inc, nb.st, nb.gasLimit, pend, queued, floor) {
+				stats.Excluded(FPReorgGap)
+				return old, nil
+			}
 		}
 	} else {
 		base := cur
@@ -730,10 +810,10 @@ func (e *env) moveHead(h *headSpec) (old, nb *block) {
 		if nblocks < 1 {
 			nblocks = 1
 		}
-		nb = base
+		var plan []blockPlan
+		st := base.st
 		for bi := 0; bi < nblocks; bi++ {
 			last := bi == nblocks-1
-			st := nb.st
 			for i := range st {
 				st[i].Bal = new(big.Int).Set(st[i].Bal)
 			}
@@ -756,11 +836,35 @@ func (e *env) moveHead(h *headSpec) (old, nb *block) {
 						txs = append(txs, e.u.copyOf(tx, a, false))
 					}
 				}
+				for qi := 0; qi < nQiValid; qi++ {
+					if h.Qi&(1<<qi) != 0 {
+						txs = append(txs, e.chain.qi.fresh(qi))
+					}
+				}
 				if h.Fund >= 0 {
 					st[h.Fund].Bal.Add(st[h.Fund].Bal, big.NewInt(1_000_000_000_000))
 				}
 			}
-			nb = e.chain.newBlock(nb, txs, st, low)
+			plan = append(plan, blockPlan{txs, st, low})
+		}
+		if e.excludeGap && base != cur {
+			lastp := plan[len(plan)-1]
+			gl := uint64(baseGas)
+			if lastp.low {
+				gl = lowGas
+			}
+			var inc []*types.Transaction
+			for _, p := range plan {
+				inc = append(inc, p.txs...)
+			}
+			if e.reorgGapHazard(cur, base, inc, lastp.st, gl, pend, queued, floor) {
+				stats.Excluded(FPReorgGap)
+				return old, nil
+			}
+		}
+		nb = base
+		for _, p := range plan {
+			nb = e.chain.newBlock(nb, p.txs, p.st, p.low)
 		}
 	}
 	e.chain.mu.Lock()
@@ -773,6 +877,19 @@ func (e *env) moveHead(h *headSpec) (old, nb *block) {
 		e.pool.VerifSyncReset(old.wo, nb.wo)
 	}
 	return old, nb
+}
+
+// maxNonce is the highest state nonce the account has had on any block of this case.
+func (c *stubChain) maxNonce(a int) uint64 {
+	c.mu.RLock()
+	defer c.mu.RUnlock()
+	var m uint64
+	for _, b := range c.byHash {
+		if b.st[a].Nonce > m {
+			m = b.st[a].Nonce
+		}
+	}
+	return m
 }
 
 func (e *env) pickMined(a int, st acctState, mode int, pend, queued map[common.InternalAddress]types.Transactions) *types.Transaction {
@@ -798,11 +915,11 @@ func (e *env) pickMined(a int, st acctState, mode int, pend, queued map[common.I
 		if own != nil {
 			return own
 		}
-		return e.u.canon[txRef{a, n, 0, 0}]
+		return e.u.canon[ref(a, n, 0, 0)]
 	case 1:
-		c := e.u.canon[txRef{a, n, 1, 0}]
+		c := e.u.canon[ref(a, n, 1, 0)]
 		if own != nil && own.Hash() == c.Hash() {
-			c = e.u.canon[txRef{a, n, 2, 0}]
+			c = e.u.canon[ref(a, n, 2, 0)]
 		}
 		return c
 	default:
@@ -811,7 +928,7 @@ func (e *env) pickMined(a int, st acctState, mode int, pend, queued map[common.I
 		v := new(big.Int).Sub(st.Bal, fee)
 		v.Sub(v, keep)
 		if v.Sign() <= 0 {
-			return e.u.canon[txRef{a, n, 0, 0}]
+			return e.u.canon[ref(a, n, 0, 0)]
 		}
 		return e.u.drain(a, st.Nonce, v)
 	}
@@ -821,7 +938,7 @@ func (e *env) pickMined(a int, st acctState, mode int, pend, queued map[common.I
 // quiescence
 
 // quiesce brings the pool to the quiescent point the oracle is defined on: every head event
-// consumed by pool.loop, then two synchronous reset runs on the current head (the first one
+// handed over by pool.loop (feed mode), then two synchronous reset runs on the current head (the first one
 // applies reset/promote/demote/truncate; the second one runs on an already consistent pending set,
 // so the per-account queue cap applied in promoteExecutables is final). Returns the snapshot and
 // the model block the pool says it is at.
@@ -832,14 +949,20 @@ func (e *env) quiesce() (*core.VerifPoolSnapshot, *block, callResult, error) {
 	cr := e.call(func() {
 		for attempt := 0; attempt < 200; attempt++ {
 			if e.feedMode {
+				// pool.loop handles chain-head events one at a time and ignores events without a
+				// block; once it has taken this sentinel from its channel it has finished handing
+				// every earlier head event to the reorg loop (requestReset returns only after the
+				// request was registered), so the reset requests below are ordered after them.
+				e.chain.headMu.Lock()
+				e.chain.feed.Send(core.ChainHeadEvent{})
+				e.chain.headMu.Unlock()
 				for i := 0; len(e.chain.headCh) > 0; i++ {
-					if i > 20000 {
+					if i > 200000 {
 						herr = fmt.Errorf("pool.loop does not drain the chain-head channel")
 						return
 					}
-					time.Sleep(100 * time.Microsecond)
+					time.Sleep(50 * time.Microsecond)
 				}
-				runtime.Gosched()
 			}
 			cur := e.chain.Head()
 			e.pool.VerifSyncReset(cur.wo, cur.wo)
@@ -860,11 +983,4 @@ func (e *env) quiesce() (*core.VerifPoolSnapshot, *block, callResult, error) {
 		}
 	})
 	return snap, at, cr, herr
-}
-
-func init() {
-	// params.Version reads ./VERSION; the driver copies it, manual runs may not have it
-	if _, err := os.Stat("VERSION"); err != nil {
-		_ = err
-	}
 }
